@@ -182,6 +182,17 @@ func execC08(t *testing.T, scAny any, keepLog bool) *Outcome {
 					return Failf("c08.order", "Subjects() does not follow Certificates()", "step %d pool %d position %d", step, pi, k)
 				}
 			}
+			// The lists belong to the caller now: whatever it does with them (reorder, overwrite, append) must not
+			// reach the pool. The next check compares the pool with the model again.
+			for i, j := 0, len(certs)-1; i < j; i, j = i+1, j-1 {
+				certs[i], certs[j] = certs[j], certs[i]
+				subs[i], subs[j] = subs[j], subs[i]
+			}
+			if len(certs) > 0 {
+				certs = append(certs, u.probe[(step+pi)%len(u.probe)])
+				certs[0] = u.probe[step%len(u.probe)]
+				subs = append(subs, []byte("scribble"))
+			}
 			for i := range u.certs {
 				if p.Contains(u.probe[i]) != m.has(i) {
 					return Failf("c08.contains", "Contains disagrees with the set of added certificates", "step %d pool %d cert %s: Contains=%v", step, pi, u.names[i], !m.has(i))
